@@ -46,6 +46,18 @@ NOTES = {
     'C18-A7-pformat-renderer-rstrips-whole-line': 'MISSED by C18 as built then (four fixed values without comments); caught after adding values with comments whose lines end in or consist of whitespace',
     'C11-B7-tuple-subclass-sole-argument-hugged': 'MISSED by C11 as built then (no call-style value with a container as sole argument other than the collections wrappers); caught after adding exceptions as container kinds (which also made the oracle distinguish set arguments: hugged by set-subclass printers only)',
     'C10-B7-counter-most-common-n-hides-truncation': 'MISSED by C10 as built then (Counter and deque were not among its containers); caught after adding both as call-style holders with their own reference',
+    'C13-A8-commented-dict-value-rerendered-lazily': 'MISSED by C13 as built then (no comments anywhere in its graphs); caught after letting references carry comment() / trailing_comment() wrappers (the reference DFS looks through them)',
+    'C03-B8-commented-dict-value-context-not-nested': 'first caught by C11 (depth cut differs); C03 itself MISSED it as built then (depth was never set); caught by C03 after holding depth / max_seq_len / sort_dict_keys fixed while the layout settings vary',
+    'C19-A8-predicate-mru-hint-per-type': 'MISSED by C19 (and C15) as built then (every predicate depended on the type only); caught after adding two overlapping predicate printers whose predicates read instance state',
+    'C04-B8-lookahead-skips-normalising-lazy-bodies': 'MISSED by C04 as built then - and HIDDEN by its lenient reading: a group laid out flat around a bare hardline was classified as the listed finding even when an always_break in the same lazily evaluated body would have been hoisted in front of that hardline. Caught after (a) the matcher rejects a flat group around an align/hang body that hoists an always_break and (b) a document family mixing hardline / always_break / breaks in such bodies was added',
+    'C06-A8-string-width-measured-with-repr-quotes': 'MISSED by C06 as built then (strings mixing both quote kinds inside a container at exactly fitting width did not occur); caught after adding such quote-mix strings to the one-line values',
+    'C14-B8-falsy-exception-skips-fallback': 'MISSED by C14 as built then (all 14 exception classes had truthy instances); caught after adding exceptions with __bool__ False, __len__ 0 and an __eq__ that equals everything',
+    'C02-A8-cut-moves-back-past-combining-marks': 'MISSED by C02 as built then (no stacks of combining marks); caught after adding Zalgo-style strings, joiners, variation selectors and bidi marks (step budget turns the hang into a verdict)',
+    'C18-B8-falsy-stream-falls-back-to-stdout': 'MISSED by C18 as built then (every stream was a StringIO); caught after rotating through a list-backed sink that is falsy while empty and a write-only always-falsy stream',
+    'C09-A8-sole-argument-unwraps-one-comment-only': 'MISSED by C09 as built then (no depth limit in its configurations); caught after adding depth limits for values without commented dict keys',
+    'C17-B8-negative-cache-of-types-without-predicate': 'first caught by C15 (print, register a predicate, print); C17 itself MISSED it as built then (extras always installed before the first print); caught by C17 after adding classes first printed before install_extras() (forked child)',
+    'C14-A8-every-typeerror-treated-as-missing-parameter': 'MISSED by C14 as built then (the "does not support rendering trailing comments" warning was filtered everywhere because PNode printers legitimately cause it); caught after judging that warning wherever no such printer sits under a trailing comment',
+    'C13-B8-deferred-supertype-printer-registered-unwrapped': 'MISSED by C13 as built then (no node printed through a by-name printer of its BASE class); caught after adding such a subclass as node kind',
 }
 for name, note in NOTES.items():
     p = os.path.join(HOME, 'seeded', name, 'meta.json')
@@ -64,6 +76,9 @@ for p in glob.glob(os.path.join(HOME, 'seeded', '*', 'meta.json')):
     if rnd in ('2', '3'):
         m['origin'] = ('round %s: independent sub-agent in its own scratch worktree, given the property text plus a PROSE description of the kind of generated workload '
                        'it had to slip past (no file from /verif) - a deliberately stronger adversary than "property text only"' % rnd)
+    elif rnd == '8':
+        m['origin'] = ('round 8: as rounds 6-7 - independent sub-agent in its own scratch worktree, four property texts (pick two), rarity shown by its own random '
+                       'differential test, one-line summaries of all ideas delivered so far ("do not repeat"), nothing about the checks')
     elif rnd == '7':
         m['origin'] = ('round 7: as round 6 - independent sub-agent in its own scratch worktree, four property texts (pick two), rarity shown by its own random '
                        'differential test, one-line summaries of the ideas already delivered ("do not repeat"), nothing about the checks')
